@@ -91,6 +91,7 @@ func appendStep(i int) Event       { return Event{Kind: EvAppend, Node: uint8(i)
 func pauseReady(i, on int) Event   { return Event{Kind: EvPauseReady, Node: uint8(i), Arg: uint16(on)} }
 func holdFrom(i int) Event         { return Event{Kind: EvHoldFrom, Node: uint8(i)} }
 func flush() Event                 { return Event{Kind: EvFlush} }
+func sendSnap(i, j int) Event      { return Event{Kind: EvSendSnap, Node: uint8(i), Peer: uint8(j)} }
 func pauseAppend(i, on int) Event  { return Event{Kind: EvPauseAppend, Node: uint8(i), Arg: uint16(on)} }
 func confMixed(i, k, n int) Event  { return Event{Kind: EvProposeConf, Node: uint8(i), Peer: uint8(n), Arg: uint16(k)} }
 func confMixedLast(i, k, n int) Event {
@@ -222,6 +223,15 @@ func scriptSnapshot() []Event {
 // reports node 3 unreachable and the leader keeps accepting proposals.
 func scriptSnapshotUnreachable() []Event {
 	return seq(camp(1), prop(1), isolate(3), prop(1), prop(1), compact(1, 0), heal(), prop(1), unreach(1, 3), prop(1), prop(1), unreach(1, 3), prop(1))
+}
+
+// scriptManualSnapshotDivergent: node 3 led term 2 and holds an uncommitted tail of that
+// term; the leader of term 3 (whose own tail is not yet quorum-backed) has its application ship
+// the snapshot its storage holds to node 3 – a snapshot behind node 3's commit index, which
+// node 3 ignores and answers with its commit index.
+func scriptManualSnapshotDivergent() []Event {
+	return seq(camp(1), prop(1), prop(1), compact(2, 0), camp(3), isolate(3), prop(3), prop(3), camp(2), isolate(1), prop(2), prop(2),
+		heal(), isolate(1), sendSnap(2, 3), prop(2), heal(), prop(2))
 }
 
 func scriptSnapshotRestart() []Event {
@@ -670,6 +680,9 @@ func poolElection(tier string) (p pool) {
 	for _, f := range []feat{syncF, pvF, asyncF} {
 		p.dd = append(p.dd, ddScn("vote-only-crash", 3, ids(3), f, scriptVoteOnlyCrash(), devK(tier), defaultFaults...))
 	}
+	for _, f := range []feat{syncF, asyncF, pvF} {
+		p.dd = append(p.dd, ddScn("transfer-vs-election", 3, ids(3), f, scriptTransferVsElection(), devK(tier), defaultFaults...))
+	}
 	for _, f := range []feat{syncF, pvcqF} {
 		p.dd = append(p.dd, ddScn("transfer-twice", 3, ids(3), f, scriptTransferTwice(), devK(tier), defaultFaults...),
 			confSc("transfer-to-removed", f, scriptTransferToRemoved(), devK(tier), defaultFaults...))
@@ -689,6 +702,13 @@ func scriptTransferTwice() []Event {
 // acknowledgements are held back until the transfer has started).
 func scriptTransferToRemoved() []Event {
 	return seq(camp(1), prop(1), isolate(3), prop(1), holdFrom(2), conf(1, mRemove3), xfer(1, 3), flush(), prop(1), heal(), prop(1), camp(2), prop(2))
+}
+
+// scriptTransferVsElection: the MsgTimeoutNow of a leadership transfer to node 2 is held back
+// while node 3 campaigns for the next term on its own and collects the old leader's vote; the
+// transferee then campaigns for the same term with the transfer context.
+func scriptTransferVsElection() []Event {
+	return seq(camp(1), prop(1), cut(2, 3), holdFrom(1), xfer(1, 2), camp(3), flush(), prop(3), prop(2), heal(), prop(3), prop(2))
 }
 
 // scriptVoteOnlyCrash: a stale candidate and an up-to-date candidate campaign in the
@@ -743,9 +763,9 @@ func split(s *Scenario) *Scenario {
 
 func poolSnapshot(tier string) (p pool) {
 	k := devK(tier)
-	fl := append([]int{int(BSnapFail), 1, int(BCompact), 1}, defaultFaults...)
+	fl := append([]int{int(BSnapFail), 1, int(BCompact), 1, int(BSendSnap), 1}, defaultFaults...)
 	for _, f := range []feat{syncF, asyncF} {
-		p.bfs = append(p.bfs, bfsSnapshot(f), bfsSnapshot(f, int(BDup), 1), bfsSnapshot(f, int(BCrash), 1))
+		p.bfs = append(p.bfs, bfsSnapshot(f), bfsSnapshot(f, int(BDup), 1), bfsSnapshot(f, int(BCrash), 1), bfsSnapshot(f, int(BSendSnap), 1))
 		p.dd = append(p.dd,
 			ddScn("snapshot", 3, ids(3), f, scriptSnapshot(), k, fl...),
 			ddScn("snapshot-restart", 3, ids(3), f, scriptSnapshotRestart(), k, fl...),
@@ -767,6 +787,7 @@ func poolSnapshot(tier string) (p pool) {
 			pg.PropSizes = []int{30, 1, 1, 1}
 			p.dd = append(p.dd, pg)
 		}
+		p.dd = append(p.dd, ddScn("manual-snapshot-divergent", 3, ids(3), f, scriptManualSnapshotDivergent(), k, fl...))
 		{
 			se := tickSnap(ddScn("snapshot+entries", 3, ids(3), f, scriptSnapshotPlusEntries(), k, int(BDrop), 1, int(BDup), 1, int(BCrash), 1))
 			se.SlowSnap = true
